@@ -250,7 +250,7 @@ pub fn property() -> Property {
         subchecks: vec![
             SubCheck {
                 name: "generated_positions",
-                driver: Driver::Generated { gen: gen_pos_case, genome_len: 192, quick: 600_000, thorough: 12_000_000 },
+                driver: Driver::Generated { gen: gen_pos_case, genome_len: 192, quick: 2_400_000, thorough: 19_200_000 },
                 check: check_case,
                 configs: Configs::ReleaseOnly,
                 required: &["checkmate", "stalemate", "insufficient_material", "moves75", "moves50", "no_outcome", "material_near_miss", "no_legal_but_illegal_ep", "only_legal_moves_are_ep"],
